@@ -143,6 +143,15 @@ Proof.
   destruct (fq_keep c) eqn:E; [|exact IH]. cbn [forallb]. rewrite E, IH. reflexivity.
 Qed.
 
+(* the header-safe alphabet is exactly [A-Za-z0-9_-] *)
+Lemma safe_alphabet : forall c, fq_keep c = true <->
+  (c = 45 \/ 48 <= c <= 57 \/ 65 <= c <= 90 \/ c = 95 \/ 97 <= c <= 122).
+Proof.
+  intro c. unfold fq_keep, fqsafe_ranges. cbn [existsb fst snd].
+  rewrite !orb_true_iff, !andb_true_iff, !Z.leb_le. split; intro H; [|lia].
+  destruct H as [H|[H|[H|[H|[H|H]]]]]; try lia; discriminate.
+Qed.
+
 Lemma fqSafe_app : forall a b, fqSafe (a ++ b) = fqSafe a ++ fqSafe b.
 Proof. intros. unfold fqSafe. apply filter_app. Qed.
 
